@@ -14,6 +14,7 @@ import (
 	cidlink "github.com/ipld/go-ipld-prime/linking/cid"
 	"github.com/ipld/go-ipld-prime/node/basicnode"
 
+	"github.com/ucan-wg/go-ucan/did"
 	"github.com/ucan-wg/go-ucan/pkg/args"
 	"github.com/ucan-wg/go-ucan/pkg/command"
 	"github.com/ucan-wg/go-ucan/pkg/meta"
@@ -36,6 +37,8 @@ type tokEnv struct {
 }
 
 func errObs() W { return WErr() }
+
+func didUndef() did.DID { return did.Undef }
 
 func safe(f func() W) (obs W) {
 	defer func() {
@@ -718,6 +721,109 @@ func genToken(c *Ctx) {
 		}
 		e.offer("tok/wf-cross/dlg-payload-inv-tag", e.signEnvelope(p, hdr, invTag, mkMap(validDlg...)))
 		e.offer("tok/wf-cross/inv-payload-dlg-tag", e.signEnvelope(p, hdr, dlgTag, mkMap(validInv...)))
+	}
+
+	// ---- 3b. constructors: which inputs are accepted
+	{
+		p := &e.keys[0]
+		q := &e.keys[1%len(e.keys)]
+		type spec struct {
+			issDef, otherDef bool
+			cmd              string
+			nonce            int // -1: none given
+			t1, t2           *int64
+			polmax           int64
+		}
+		pt := func(v int64) *int64 { return &v }
+		base := spec{true, true, "/a/b", -1, nil, nil, 1}
+		var specs []spec
+		add := func(f func(s *spec)) { s := base; f(&s); specs = append(specs, s) }
+		add(func(s *spec) {})
+		add(func(s *spec) { s.issDef = false })
+		add(func(s *spec) { s.otherDef = false })
+		for _, cm := range []string{"/", "/a", "a", "", "/A", "/a/", "//", "/a//b", "/é"} {
+			cm := cm
+			if cm == "/é" {
+				continue // non-ASCII case mapping is outside the model
+			}
+			add(func(s *spec) { s.cmd = cm })
+		}
+		for _, n := range []int{0, 1, 11, 12, 13, 64} {
+			n := n
+			add(func(s *spec) { s.nonce = n })
+		}
+		for _, tv := range []int64{9007199254740991, 9007199254740992, 4102444800, 1 << 60} {
+			tv := tv
+			add(func(s *spec) { s.t2 = pt(tv) })
+			add(func(s *spec) { s.t1 = pt(tv) })
+		}
+		for _, pm := range []int64{9007199254740991, 9007199254740992, -9007199254740992, 1 << 62} {
+			pm := pm
+			add(func(s *spec) { s.polmax = pm })
+		}
+		for _, s := range specs {
+			for _, ty := range []string{"dlg", "inv"} {
+				if ty == "inv" && s.polmax != 1 {
+					continue
+				}
+				s := s
+				obs := safe(func() W {
+					iss, other := p.did, q.did
+					if !s.issDef {
+						iss = didUndef()
+					}
+					if !s.otherDef {
+						other = didUndef()
+					}
+					if ty == "dlg" {
+						pol, err := polBuild([]pstmt{{kind: "==", sel: ".", val: basicnode.NewInt(s.polmax)}})
+						if err != nil {
+							return errObs()
+						}
+						var opts []delegation.Option
+						if s.nonce >= 0 {
+							opts = append(opts, delegation.WithNonce(bytes.Repeat([]byte{1}, s.nonce)))
+						}
+						if s.t1 != nil {
+							opts = append(opts, delegation.WithNotBefore(time.Unix(*s.t1, 0)))
+						}
+						if s.t2 != nil {
+							opts = append(opts, delegation.WithExpiration(time.Unix(*s.t2, 0)))
+						}
+						t, err := delegation.New(iss, other, command.Command(s.cmd), pol, opts...)
+						if err != nil {
+							return errObs()
+						}
+						return WOk(WInt(int64(len(t.Nonce()))))
+					}
+					var opts []invocation.Option
+					if s.nonce >= 0 {
+						opts = append(opts, invocation.WithNonce(bytes.Repeat([]byte{1}, s.nonce)))
+					}
+					if s.t1 != nil {
+						opts = append(opts, invocation.WithInvokedAt(time.Unix(*s.t1, 0)))
+					} else {
+						opts = append(opts, invocation.WithoutInvokedAt())
+					}
+					if s.t2 != nil {
+						opts = append(opts, invocation.WithExpiration(time.Unix(*s.t2, 0)))
+					}
+					t, err := invocation.New(iss, other, command.Command(s.cmd), nil, opts...)
+					if err != nil {
+						return errObs()
+					}
+					return WOk(WInt(int64(len(t.Nonce()))))
+				})
+				tw := func(p *int64) W {
+					if p == nil {
+						return WNull
+					}
+					return WInt(*p)
+				}
+				c.Emit("tok/new-"+ty, WList(WStr("new"), WStr(ty), WMap(KV{"iss", WBool(s.issDef)}, KV{"other", WBool(s.otherDef)},
+					KV{"cmd", WStr(s.cmd)}, KV{"nonce", WInt(int64(s.nonce))}, KV{"t1", tw(s.t1)}, KV{"t2", tw(s.t2)}, KV{"polmax", WInt(s.polmax)})), obs)
+			}
+		}
 	}
 
 	// ---- 4. Go numbers offered as argument / metadata values
